@@ -161,6 +161,9 @@ pub fn cases(tier: Tier) -> Vec<Case> {
         ("host-differs-from-authority", headers_frame(abuse_stream, &req_block("/abuse", &[("host", "b.io")]), true), se(&[PROTOCOL_ERROR], &[400, 404, 401, 421]), true),
         ("content-length-shorter-than-data", [headers_frame(abuse_stream, &[block(&[(":method", "POST"), (":scheme", "https"), (":path", "/abuse"), (":authority", "a.io")]), lit("content-length", "3")].concat(), false), h2::data(abuse_stream, b"12345", true)].concat(), se(&[PROTOCOL_ERROR], &[400]), true),
         ("content-length-longer-than-data", [headers_frame(abuse_stream, &[block(&[(":method", "POST"), (":scheme", "https"), (":path", "/abuse"), (":authority", "a.io")]), lit("content-length", "9")].concat(), false), h2::data(abuse_stream, b"12345", true)].concat(), se(&[PROTOCOL_ERROR], &[400]), true),
+        ("content-length-longer-than-data-ended-by-trailers", [headers_frame(abuse_stream, &[block(&[(":method", "POST"), (":scheme", "https"), (":path", "/abuse"), (":authority", "a.io")]), lit("content-length", "10")].concat(), false), h2::data(abuse_stream, b"12345", false), headers_frame(abuse_stream, &block(&[("x-t", "1")]), true)].concat(), se(&[PROTOCOL_ERROR], &[400]), true),
+        ("content-length-shorter-than-data-ended-by-trailers", [headers_frame(abuse_stream, &[block(&[(":method", "POST"), (":scheme", "https"), (":path", "/abuse"), (":authority", "a.io")]), lit("content-length", "3")].concat(), false), h2::data(abuse_stream, b"12345", false), headers_frame(abuse_stream, &block(&[("x-t", "1")]), true)].concat(), se(&[PROTOCOL_ERROR, STREAM_CLOSED], &[400]), true),
+        ("content-length-met-then-trailers", [headers_frame(abuse_stream, &[block(&[(":method", "POST"), (":scheme", "https"), (":path", "/abuse-ok"), (":authority", "a.io")]), lit("content-length", "5")].concat(), false), h2::data(abuse_stream, b"12345", false), headers_frame(abuse_stream, &block(&[("x-t", "1")]), true)].concat(), Expect::StreamError { stream: abuse_stream, codes: vec![], or_status: vec![200] }, false),
         ("content-length-on-end-stream-headers", headers_frame(abuse_stream, &[block(&[(":method", "POST"), (":scheme", "https"), (":path", "/abuse"), (":authority", "a.io")]), lit("content-length", "9")].concat(), true), se(&[PROTOCOL_ERROR], &[400]), true),
         ("content-length-not-a-number", headers_frame(abuse_stream, &[req_block("/abuse", &[]), lit("content-length", "+0")].concat(), true), se(&[PROTOCOL_ERROR], &[400]), true),
         ("two-content-lengths", [headers_frame(abuse_stream, &[block(&[(":method", "POST"), (":scheme", "https"), (":path", "/abuse"), (":authority", "a.io")]), lit("content-length", "5"), lit("content-length", "6")].concat(), false), h2::data(abuse_stream, b"12345", true)].concat(), se(&[PROTOCOL_ERROR], &[400]), true),
@@ -210,6 +213,11 @@ pub fn cases(tier: Tier) -> Vec<Case> {
     out
 }
 
+/// the malformed-request family (what an HTTP/2 client can do to the request sozu writes to a backend)
+pub fn request_cases(tier: Tier) -> Vec<Case> {
+    cases(tier).into_iter().filter(|c| c.must_not_forward || c.name.starts_with("content-length") || c.name.contains("padded-data") || c.name.contains("empty-data-frames")).collect()
+}
+
 fn headers_frame_big(stream: u32) -> Vec<u8> {
     // ~70 kB of header fields in one block, split into HEADERS + CONTINUATION frames of 16 kB
     let mut b = req_block("/abuse", &[]);
@@ -231,10 +239,22 @@ fn headers_frame_big(stream: u32) -> Vec<u8> {
 }
 
 pub fn run_case(case: &Case, prefix: Vec<u32>, profile: ChoiceProfile) -> Run {
+    run_case_tagged("C15|h2", case, prefix, profile)
+}
+
+/// `tag` prefixes the violation keys (C03 reuses the malformed-request cases under its own name)
+pub fn run_case_tagged(tag: &str, case: &Case, prefix: Vec<u32>, profile: ChoiceProfile) -> Run {
     let front = scen::addr(1, 8443);
     let back = scen::addr(2, 9090);
-    let setup = scen::simple_https(front, back);
-    let backend = Peer::server("backend", back, vec![Step::ServeH1 { response_head: "HTTP/1.1 200 OK".into(), body: b"ok".to_vec() }]);
+    let mut setup = scen::simple_https(front, back);
+    // debugging aid: C15_BACKEND=h2 puts an h2c backend behind the worker
+    let h2_backend = std::env::var("C15_BACKEND").is_ok_and(|v| v == "h2");
+    setup.clusters[0].cluster.http2 = Some(h2_backend);
+    let backend = if h2_backend {
+        Peer::server("backend", back, vec![Step::H2Serve])
+    } else {
+        Peer::server("backend", back, vec![Step::ServeH1 { response_head: "HTTP/1.1 200 OK".into(), body: b"ok".to_vec() }])
+    };
     let get = |path: &str| -> Vec<(String, String)> { vec![(":method".into(), "GET".into()), (":scheme".into(), "https".into()), (":path".into(), path.into()), (":authority".into(), "a.io".into())] };
     // ---- the abusive client
     let mut script = vec![
@@ -295,7 +315,7 @@ pub fn run_case(case: &Case, prefix: Vec<u32>, profile: ChoiceProfile) -> Run {
     }
     let mut violations: Vec<(String, String)> = vec![];
     let id = format!("{}|{}", case.state, case.name);
-    let mut flag = |k: String, d: String| violations.push((format!("C15|h2|{id}|{k}"), d));
+    let mut flag = |k: String, d: String| violations.push((format!("{tag}|{id}|{k}"), d));
     if let Some(p) = &exec.subject_panic {
         flag("worker-panic".into(), format!("worker panicked: {p}"));
     }
@@ -314,6 +334,20 @@ pub fn run_case(case: &Case, prefix: Vec<u32>, profile: ChoiceProfile) -> Run {
         for conn in b.conns() {
             if conn.rx.windows(6).any(|w| w == b"/abuse") && !conn.rx.windows(9).any(|w| w == b"/abuse-ok") {
                 flag("malformed-request-forwarded".into(), "the backend received (part of) the malformed request".into());
+            }
+        }
+    }
+    // ---- whatever reached the HTTP/1.1 backend is a sequence of canonical requests sozu itself labelled
+    if !h2_backend {
+        for (ci, conn) in b.conns().iter().enumerate() {
+            let (msgs, used, err) = h1::parse_all_canonical(&conn.rx, true);
+            if let Some(e) = err.filter(|e| !e.starts_with("connection closed")) {
+                flag("backend-stream-not-canonical".into(), format!("backend connection {ci}: after {} well-formed requests the stream is {e}; next bytes {:?}", msgs.len(), String::from_utf8_lossy(&conn.rx[used..conn.rx.len().min(used + 120)])));
+            }
+            for m in &msgs {
+                if m.headers_named("sozu-id").is_empty() {
+                    flag("request-unknown-to-sozu".into(), format!("backend connection {ci} carries a request {:?} without the correlation header sozu adds to every request it forwards", m.start_line));
+                }
             }
         }
     }
@@ -386,13 +420,18 @@ pub fn run_case(case: &Case, prefix: Vec<u32>, profile: ChoiceProfile) -> Run {
         }
     }
     drop(flag);
+    if std::env::var("H2_DUMP").is_ok() {
+        for (ci, conn) in sc.peers[0].conns().iter().enumerate() {
+            eprintln!("---- backend connection {ci} rx ({} bytes):\n{}", conn.rx.len(), String::from_utf8_lossy(&conn.rx[..conn.rx.len().min(2500)]).escape_debug());
+        }
+    }
     if end != End::Finished && violations.is_empty() {
-        violations.push((format!("C15|h2|{id}|worker-{}", format!("{end:?}").to_lowercase()), format!("run ended {end:?}")));
+        violations.push((format!("{tag}|{id}|worker-{}", format!("{end:?}").to_lowercase()), format!("run ended {end:?}")));
     }
     Run { trace: exec.trace, observation: obs, violations, diverged: exec.diverged }
 }
 
-fn profile() -> ChoiceProfile {
+pub fn profile() -> ChoiceProfile {
     ChoiceProfile { read_faults: vec![FdClass::Front], write_faults: vec![FdClass::Front], max_points_per_class: 3, event_order: false, ..Default::default() }
 }
 
